@@ -6,6 +6,7 @@
 #   effect of F is reachable (the refusal edge; polarity is inferred); for every effect e that g
 #   must protect: block(g) strictly dominates block(e).  A listed guard that cannot be found in an
 #   existing F is a violation ("guard removed"); a missing F is a broken check (exit 2).
+import re
 from core import trace, roots, fields_of, place_str, CheckBroken
 
 # ---- effect recognisers ------------------------------------------------------------------------
@@ -120,9 +121,31 @@ def find_effects(body, extra_calls=None, facts=None):
             if c and (c.endswith("::take") or c.endswith("mem::replace") or c.endswith("::insert") or c.endswith("::replace")) and t["args"]:
                 for r in trace(body, t["args"][0]):
                     pass
-        if t["k"] == "drop":
-            pass
+        if t["k"] == "drop" and facts is not None:
+            # a value whose Drop impl performs an effect (an RAII "restore" guard that writes the root back ..): dropping it
+            # IS the effect, wherever the scope ends - in particular on the early return of a refusal
+            dfn = drop_impl_of(facts, body.place_ty(t["pl"]) or "")
+            if dfn is not None:
+                names = {n for (n, _b, _i, _s) in find_effects(facts.bodies[dfn], None, None)} | helper_effects(facts, dfn)
+                for n in sorted(names):
+                    out.append(("%s via drop of %s" % (n, dfn.split(" as ")[0].lstrip("<").split("::")[-1].split("<")[0]), b, len(body.stmts(b)), t.get("ln") or body.span))
     return out
+
+
+_DROPS = {}
+
+
+def drop_impl_of(facts, ty):
+    """id of `<T as Drop>::drop` for the nomt type `ty` (generic arguments ignored), or None"""
+    key = id(facts)
+    if key not in _DROPS:
+        m = {}
+        for i in facts.bodies:
+            if i.startswith("<nomt::") and i.endswith(" as core::ops::drop::Drop>::drop"):
+                m[re.sub(r"<.*$", "", i[1:].split(" as ")[0])] = i
+        _DROPS[key] = m
+    base = re.sub(r"<.*$", "", ty.lstrip("&").replace("mut ", "").strip())
+    return _DROPS[key].get(base)
 
 
 # ---- guard recognisers: each returns a list of (switch_block, description, site) ---------------
@@ -533,7 +556,7 @@ def run_row(facts, rep, row, short_override=None):
             if not refusal:
                 rep.violation(
                     "guardfx", short, "%s|no-refusal-edge" % inst,
-                    "both edges of guard `%s` (%s at %s) reach an effect: the refusal no longer refuses" % (gname, desc, site),
+                    "both edges of guard `%s` (%s at %s) reach an effect: the refusal no longer refuses (the edge with the fewest effects still reaches: %s)" % (gname, desc, site, ", ".join(min(reach_eff.values(), key=len)[:4])),
                     site=site,
                 )
                 continue
@@ -607,3 +630,25 @@ def session_params_const_false(facts, rep):
                 site=t.get("ln"),
                 detail="%s assigned const false at %s, dominating begin_session at %s; no other store to the field" % (field, [a[2].get("ln") for a in const_false], t.get("ln")),
             )
+
+
+def rollback_commits_after_truncate(facts, rep):
+    """C09 K1: `Rollback::truncate(n)` pops the deltas in memory and arms the pending truncation of the on-disk log; both are
+    only made consistent with the meta page by the rollback's OWN commit (its sync consumes the pending truncation).  Rule: in
+    Nomt::rollback every success path from the truncation to the return passes FinishedSession::commit - there is no `Ok(())`
+    short-cut after the truncation (an empty traceback still has to be synced)."""
+    body = facts.body("nomt::Nomt::rollback")
+    short = "Nomt::rollback"
+    tr = [b for b, t in body.calls() if t.get("callee") == "nomt::rollback::Rollback::truncate" and not body.is_cleanup(b)]
+    cm = [b for b, t in body.calls() if t.get("callee") == "nomt::FinishedSession::commit" and not body.is_cleanup(b)]
+    if not tr:
+        rep.notes.append("K1: Nomt::rollback no longer calls Rollback::truncate directly: not decided")
+        return 0
+    rem = set(body.ok_removed())
+    n = 0
+    for tb in tr:
+        n += 1
+        reach = body.reachable_flags(body.succ(tb), rem | set(cm))
+        bad = sorted(set(body.return_blocks()) & reach)
+        rep.check(not bad, "K1", short, "truncate-then-own-commit", "Nomt::rollback can return Ok after Rollback::truncate at %s without running its own commit (return at bb%s): the deltas are popped in memory and the truncation of the on-disk log stays pending - the next ordinary commit's sync consumes it and cuts its own delta out of the log" % (body.term(tb).get("ln"), bad), site=body.term(tb).get("ln"), detail="every success path from truncate at %s passes FinishedSession::commit (bb%s)" % (body.term(tb).get("ln"), cm))
+    return n
